@@ -65,14 +65,19 @@ def run_cases(binp, cases, setup=''):
         with tempfile.NamedTemporaryFile('w', suffix='.noul', delete=False) as f:
             f.write('\n'.join(prog) + '\n')
             path = f.name
+        timed_out = False
+        pr = subprocess.Popen([binp, path], stdout=subprocess.PIPE, stderr=subprocess.DEVNULL, text=True)
         try:
-            r = subprocess.run([binp, path], capture_output=True, text=True, timeout=600)
+            so, _ = pr.communicate(timeout=int(os.environ.get('VERIF_CASE_TIMEOUT', '120')))
         except subprocess.TimeoutExpired:
-            os.unlink(path)
-            out[todo[0][0]] = 'TIMEOUT'
-            todo = todo[1:]
-            continue
+            pr.kill()
+            so, _ = pr.communicate()
+            timed_out = True
         os.unlink(path)
+
+        class R:
+            stdout = so
+        r = R()
         seen = 0
         for line in r.stdout.splitlines():
             if line.startswith('@@') and '@@' in line[2:]:
@@ -81,7 +86,7 @@ def run_cases(binp, cases, setup=''):
                 seen += 1
         if seen < len(todo):
             # the process died on case number `seen`
-            out[todo[seen][0]] = 'PANIC'
+            out[todo[seen][0]] = 'TIMEOUT' if timed_out else 'PANIC'
             todo = todo[seen + 1:]
         else:
             todo = []
@@ -379,6 +384,34 @@ def suite_C11():
         if py:
             cases.append(('t%d' % k, 'last(%s)' % e, str(py[-1]), dict(start=a, end=b, step=s, what='last')))
             k += 1
+    def subseqs(xs):
+        if not xs:
+            return [[]]
+        rest = subseqs(xs[1:])
+        return rest + [[xs[0]] + r for r in rest]
+
+    def show(ll):
+        return '[%s]' % ', '.join('[%s]' % ', '.join(map(str, x)) for x in ll)
+    for n in range(0, 5):
+        py = list(range(1, n + 1))
+        L = '[%s]' % ', '.join(map(str, py))
+        streams = [('permutations(%s)' % L, [list(p) for p in itertools.permutations(py)]), ('subsequences(%s)' % L, subseqs(py))]
+        for r in range(0, n + 2):
+            streams.append(('combinations(%s, %d)' % (L, r), [list(c) for c in itertools.combinations(py, r)]))
+        for r in range(0, 3):
+            streams.append(('(%s ^^ %d)' % (L, r), [list(c) for c in itertools.product(py, repeat=r)]))
+        for e, ref in streams:
+            if len(ref) > 130 or e == '([] ^^ 0)':   # the empty product of nothing: only coherence is checked below
+                continue
+            for d in sorted({0, 1, len(ref) // 2, len(ref), len(ref) + 1}):
+                ed = e if d == 0 else '(%s)[%d:]' % (e, d)
+                cases.append(('cl%d' % k, 'len(%s)' % ed, str(len(ref[d:])), dict(stream=ed, what='len')))
+                k += 1
+                cases.append(('ce%d' % k, 'list(%s)' % ed, show(ref[d:]), dict(stream=ed, what='elements')))
+                k += 1
+    for e in ['([] ^^ 0)', '([] ^^ 2)', 'permutations([])', 'combinations([], 0)', 'subsequences([])']:
+        cases.append(('co%d' % k, 'len(%s) == len(list(%s))' % (e, e), '1', dict(stream=e, what='len agrees with iteration')))
+        k += 1
     for n in range(0, 5):
         py = list(range(1, n + 1))
         for d in range(0, n + 2):
@@ -596,6 +629,20 @@ def suite_C14():
         k += 1
     ext = ['(0-9223372036854775808)', '9223372036854775807', '(0-9223372036854775807)', '9223372036854775808', '(0-9223372036854775809)', '2^64', '(0-2^64)', '(1/2)', '1.5', 'null', '"x"']
     seqs = ['[]', '[1, 2, 3]', '""', '"abc"', 'vector([1, 2])', 'bytes([1, 2])', 'stream([1, 2, 3])', '(1 til 4)', '(1 til 4)[1:]']
+    # infinite streams with O(1) indexing: every extreme index must give a value or a catchable error
+    for sq, i in itertools.product(['repeat(1)', 'cycle([1, 2, 3])', '(cycle([1, 2, 3])[1:])'], ext):
+        cases.append(('ni%d' % k, '(%s)[%s]' % (sq, i), None, dict(seq=sq, index=i)))
+        k += 1
+    for sq, i in itertools.product(['repeat(1)', 'cycle([1, 2, 3])', 'iota(5)'], ['0', '3', '(1/2)', 'null']):
+        cases.append(('nj%d' % k, '(%s)[%s]' % (sq, i), None, dict(seq=sq, index=i)))
+        k += 1
+        cases.append(('nt%d' % k, 'list((%s)[:%s])' % (sq, i), None, dict(seq=sq, hi=i)))
+        k += 1
+    for x in ['cycle([])', '(cycle([]))[0]', 'list(permutations([]))', 'list(combinations([], 1))', 'list(combinations([1, 2], 3))', 'list(subsequences([]))',
+              'list([] ^^ 2)', 'list([1] ^^ 0)', 'first(cycle([]))', 'len(permutations([]))', '(repeat(1))[(0-9223372036854775808):(0-9223372036854775807)]',
+              '(repeat(1))[(0-3):(0-1)]', '(repeat(1))[2:(0-1)]']:
+        cases.append(('nx%d' % k, x, None, dict(expr=x)))
+        k += 1
     for sq, i in itertools.product(seqs, ext):
         cases.append(('i%d' % k, '(%s)[%s]' % (sq, i), None, dict(seq=sq, index=i)))
         k += 1
